@@ -57,6 +57,20 @@ def instances(tier, seed):
                     add(cls=cls, kinds=kinds, bonds=bonds, qn=qn, qntot=qntot, qnidx=qnidx, to_right=to_right, crit="temp_scalar", lim=1)
                     add(cls=cls, kinds=kinds, bonds=bonds, qn=qn, qntot=qntot, qnidx=qnidx, to_right=to_right, crit="threshold", lim=None)
                     add(cls=cls, kinds=kinds, bonds=bonds, qn=qn, qntot=qntot, qnidx=qnidx, to_right=to_right, crit="both", lim=lims[1])
+    # tree tensor network states: the real TTNS.compress() after the real canonicalise() (QR / SVD by contract)
+    trees = [(("s", "s"), (0,), (1, 1), None), (("s", "s", "s"), (0, 0), (1, 1, 1), None), (("s", "s", "s"), (0, 1), (1, 1, 1), None), (("s", "s"), (0, 0), (0, 1, 1), None),
+             (("e", "e", "e"), (0, 0), (1, 1, 1), 1), (("e", "e", "e"), (0, 1), (1, 1, 1), 1)]
+    if tier == "thorough":
+        trees += [(("s", "s", "s"), (0, 0, 1), (0, 1, 1, 1), None), (("s", "w", "s"), (0, 0), (1, 1, 1), None), (("e", "e", "e"), (0, 0), (1, 1, 1), 2), (("e", "e", "e"), (0, 0, 0), (0, 1, 1, 1), 1)]
+    for kinds, par, cnt, qntot in trees:
+        nn = len(cnt)
+        lims = [[9] + [1, 2, 1][: nn - 1] + [9], [9] + [2, 1, 2][: nn - 1] + [9]]
+        variants = [("fixed", lims[0]), ("fixed", lims[1]), ("temp_list", lims[0]), ("temp_list", lims[1]), ("temp_scalar", 1), ("threshold", None), ("both", lims[1]), ("fixed", [9] * (nn + 1))]
+        for crit, lim in variants:
+            if crit in ("threshold", "both") and nn > 2:
+                continue          # symbolic threshold on two chained decompositions: not decided within the instance limit (900 s); two-node trees carry the criterion
+            out.append(dict(op="tree", kinds=kinds, parents=list(par), counts=list(cnt), qntot=qntot, crit=crit, lim=lim,
+                            label="tree compress %s parents=%s counts=%s sector=%s crit=%s lim=%s" % ("".join(kinds), list(par), list(cnt), qntot, crit, lim), key="tree/%s" % crit))
     for k in ((2, 3) if tier == "quick" else (2, 3, 4)):
         out.append(dict(op="config", k=k, label="CompressConfig.compute_m_trunc on %d symbolic singular values" % k, key="config"))
     return out
@@ -65,6 +79,8 @@ def instances(tier, seed):
 def make_harness(P):
     if P["op"] == "config":
         return make_config_harness(P)
+    if P["op"] == "tree":
+        return make_tree_harness(P)
 
     def h(ctx):
         from symnum import stubs
@@ -202,6 +218,130 @@ def make_harness(P):
     return h
 
 
+def make_tree_harness(P):
+    def h(ctx):
+        from symnum import stubs
+        from checks import treelib
+        from checks.c11 import tree_inv
+        treelib.ensure_print_tree()
+        from renormalizer.tn import tree as trmod
+        from renormalizer.utils import CompressConfig, CompressCriteria
+        tree, nodes = treelib.build_basis_tree(P["parents"], P["counts"], tuple(P["kinds"]))
+        if P["qntot"] is None:
+            a = treelib.build_ttns(ctx, "a", tree, 2)
+        else:
+            a = treelib.build_labelled_ttns(ctx, "a", tree, P["qntot"], dup=2)
+        nn = len(a.node_list)
+        crit = P["crit"]
+        thr = None
+        kw = {}
+        if crit == "fixed":
+            cfg = CompressConfig(CompressCriteria.fixed, max_bonddim=9)
+            cfg.max_dims = np.array(P["lim"], dtype=int)
+        elif crit in ("threshold", "both"):
+            thr = ctx.real("thr", 0.4)
+            ctx.assume(ctx.all([ctx.lt(0, thr), ctx.lt(thr, 1)]), "0<thr<1")
+            cfg = CompressConfig(CompressCriteria.threshold if crit == "threshold" else CompressCriteria.both, threshold=thr, max_bonddim=9)
+            if crit == "both":
+                cfg.max_dims = np.array(P["lim"], dtype=int)
+        else:
+            cfg = CompressConfig(CompressCriteria.fixed, max_bonddim=9)
+            kw["temp_m_trunc"] = list(P["lim"]) if crit == "temp_list" else P["lim"]
+        a.compress_config = cfg
+        undo = None
+        if ctx.symbolic:
+            _, undo = stubs.lapack_contract(ctx, modules=("renormalizer.mps.svd_qn",))
+        records = []
+        real_svd = trmod.svd_qn
+
+        def spy(*aa, **k):
+            res = real_svd(*aa, **k)
+            if not k.get("QR"):          # the sweep back to the parent goes through the same routine in its QR mode
+                records.append(res)
+            return res
+        try:
+            a.canonicalise()
+            va = treelib.dense_ttns(a)
+            bd_before = [n.tensor.shape[-1] for n in a.node_list]
+            trmod.svd_qn = spy
+            try:
+                ret, s_array = a.compress(ret_s=True, **kw)
+            finally:
+                trmod.svd_qn = real_svd
+        finally:
+            if undo:
+                undo()
+
+        def visit(node):
+            for c in node.children:
+                yield c
+                if c.children:
+                    for x in visit(c):
+                        yield x
+        order = list(visit(a.root))
+        ctx.check("tree: one truncating decomposition per bond", len(records) == len(order) == nn - 1)
+        if len(records) != len(order):
+            return
+        ctx.check("tree: compress returns the state itself", ret is a)
+        limit_of = None
+        if crit in ("fixed", "both", "temp_list"):
+            limit_of = lambda i: P["lim"][i]
+        elif crit == "temp_scalar":
+            limit_of = lambda i: P["lim"]
+        conds_lim, conds_len, conds_sorted, conds_thr, conds_s = [], [], [], [], []
+        discarded = 0
+        for child, res in zip(order, records):
+            su = np.asarray(res[1])
+            i = a.node_idx[child]
+            m = child.tensor.shape[-1]
+            conds_len.append(1 <= m <= len(su))
+            if limit_of is not None:
+                conds_lim.append(m <= limit_of(i))
+                if crit in ("fixed", "temp_list", "temp_scalar") and not child.children:
+                    # (the bond of an inner node can shrink further when the centre is swept back through it: only the limit is an obligation there)
+                    conds_lim.append(m == min(limit_of(i), len(su)))
+            conds_sorted.append(ctx.all([ctx.le(su[k + 1], su[k]) for k in range(len(su) - 1)] + [ctx.le(0, su[-1])]))
+            row = np.asarray(s_array[i])
+            conds_s.append(ctx.all([ctx.eq(row[k], su[k]) for k in range(len(su))] + [ctx.eq(row[k], 0) for k in range(len(su), len(row))]))
+            discarded = discarded + sum((x * x for x in su[m:]), 0)
+            if crit in ("threshold", "both"):
+                nrm2 = sum((x * x for x in su), 0)
+                cc = []
+                for k in range(len(su)):
+                    big = ctx.lt(thr * thr * nrm2, su[k] * su[k])
+                    first_forced = (k == 0 and m == 1)
+                    cap = len(su) if crit == "threshold" else min(P["lim"][i], len(su))
+                    if k < m:
+                        if not first_forced:
+                            cc.append(big)
+                    elif k < cap:
+                        cc.append(ctx.neg(big))
+                conds_thr.append(ctx.all(cc))
+        ctx.check("tree: kept count between 1 and the number of singular values", all(conds_len))
+        if conds_lim:
+            ctx.check("tree: every bond obeys the limit of its own node (fixed, leaf bond: keeps exactly min(limit, rank))", all(conds_lim))
+        ctx.check("tree: singular values handed to the truncation are non-negative and non-increasing", ctx.all(conds_sorted))
+        if conds_thr:
+            ctx.check("tree: threshold criterion keeps exactly the singular values above thr*|sigma| (capped by the limit for 'both')", ctx.all(conds_thr))
+        ctx.check("tree: ret_s returns, per node, the singular values of its bond before truncation (zero padded; root: [1])",
+                  ctx.all(conds_s + [ctx.eq(np.asarray(s_array[0])[0], 1)]))
+        ctx.check("tree: no bond grew", all(n.tensor.shape[-1] <= b for n, b in zip(a.node_list, bd_before)))
+        ctx.check("tree: labels describe the truncated tensors", tree_inv(ctx, a))
+        ctx.check("tree: label arrays match the bond dimensions", all(len(n.qn) == n.tensor.shape[-1] for n in a.node_list))
+        vb = treelib.dense_ttns(a)
+        nothing = all(child.tensor.shape[-1] == len(np.asarray(res[1])) for child, res in zip(order, records))
+        if nothing:
+            ctx.check("tree: nothing discarded => state unchanged", ctx.eq(vb, va))
+        if nn == 2:
+            diff = va - vb
+            d2 = sum((x * x for x in diff), 0)
+            ctx.check("tree: squared distance to the original equals the discarded weight (one bond, canonical state)", ctx.eq(d2, discarded))
+            n_after = sum((x * x for x in vb), 0)
+            n_before = sum((x * x for x in va), 0)
+            ctx.check("tree: norm does not exceed the original", ctx.le(n_after, n_before))
+    return h
+
+
 def make_config_harness(P):
     k = P["k"]
 
@@ -252,18 +392,25 @@ def main(tier, seed):
     from renormalizer.mps import mp as mpmod, svd_qn as sq
     from renormalizer.utils import configs
     MP, CC = mpmod.MatrixProduct, configs.CompressConfig
+    from checks import treelib
+    treelib.ensure_print_tree()
+    from renormalizer.tn import tree as trmod
+    TT = trmod.TTNS
     return common.run_check(
         PROP, "checks.c05", tier, seed,
         explanation="Real compress() with each criterion (fixed per-bond limits, threshold with symbolic thr in (0,1), both, temp_m_trunc scalar and per-bond list) on canonical "
                     "2- and 3-site Mps/Mpo chains with symbolic tensors and LAPACK by contract, both sweep directions, per-bond limits chosen so that a wrong bond index is "
                     "visible; plus CompressConfig.compute_m_trunc on 2-3 (4) symbolic sorted singular values for every (idx, direction). Obligations: limit of the right bond, "
                     "1 <= m <= len(sigma), sorted non-negative sigma, exact threshold set, the updated pair equals the m leading triples with sigma on the advertised side, "
-                    "squared distance = discarded weight and norm non-increasing for one bond of a canonical state, invariant, direction switch.",
+                    "squared distance = discarded weight and norm non-increasing for one bond of a canonical state, invariant, direction switch. Tree states: the real "
+                    "TTNS.compress() after the real canonicalise() on 2-3 (4) node trees (chain, star, dummy root; unlabelled bond 2 and labelled electron trees with blocks of "
+                    "size 2), per-node limits pairwise different, all criteria on two-node trees (fixed / temporary limits on larger ones): every bond obeys the limit of its own "
+                    "node, kept count, sorted singular values, exact threshold set, ret_s rows, labels valid, nothing discarded => unchanged, two nodes: distance identity and norm.",
         assumptions=["LAPACK by contract", "the multi-bond bound sqrt(sum of discarded weights) is the textbook consequence of the one-bond identity for canonical states and is "
-                     "not re-derived (DESIGN.md C05 Out)", "tree tensor network truncation is checked under C11", "real-valued tensors",
+                     "not re-derived (DESIGN.md C05 Out)", "trees: the symbolic-threshold criteria only on two-node trees (two chained decompositions do not finish within 900 s); the distance identity only for the one-bond tree", "real-valued tensors",
                      "threshold comparison sigma/|sigma| > thr is stated as sigma^2 > thr^2 |sigma|^2 (both sides non-negative)"],
         trusted_base=["z3 5.1", "NumPy object loops", "LAPACK contract stubs"],
-        functions=[MP.compress, MP._update_ms, CC.compute_m_trunc, CC._threshold_m_trunc, CC._fixed_m_trunc, CC.set_bonddim, sq.svd_qn])
+        functions=[MP.compress, MP._update_ms, TT.compress, TT.compress_node, trmod.compress_recursion, trmod.truncate_tensors, CC.compute_m_trunc, CC._threshold_m_trunc, CC._fixed_m_trunc, CC.set_bonddim, sq.svd_qn])
 
 
 if __name__ == "__main__":
